@@ -356,19 +356,6 @@ theorem addCorner_spec_aux {s : RState τ α} {g g' : Group τ α} {t : τ} {p :
 def AllG (s : RState τ α) : Prop :=
   (∀ g ∈ s.done, GInv pc s.pv s.pn s.pt g) ∧ GInv pc s.pv s.pn s.pt s.cur
 
-def poolV : List (Line τ α) → List (V3 α)
-  | [] => []
-  | .v p :: ls => p :: poolV ls
-  | _ :: ls => poolV ls
-def poolN : List (Line τ α) → List (V3 α)
-  | [] => []
-  | .vn p :: ls => p :: poolN ls
-  | _ :: ls => poolN ls
-def poolT : List (Line τ α) → List (V2 α)
-  | [] => []
-  | .vt p :: ls => p :: poolT ls
-  | _ :: ls => poolT ls
-
 theorem GInv_empty_aux (pv pn : List (V3 α)) (pt : List (V2 α)) (name : String) :
     GInv pc pv pn pt ({ name := name } : Group τ α) := ⟨⟨rfl, rfl, rfl, rfl⟩, by intro t ht; cases ht⟩
 
@@ -1356,10 +1343,6 @@ theorem obj_roundtrip_struct (matFile : String) (ms : List (String × Mesh α)) 
 
 section final
 
-def flatC {τ : Type} : List (τ × τ × τ) → List τ
-  | [] => []
-  | (a, b, c) :: r => a :: b :: c :: flatC r
-
 theorem lookup_aux {β γ : Type} {tbl : List β} {key : List γ} {f : γ → Option β}
     (h : tbl.map some = key.map f) {p : Nat} {t : γ} (hp : key[p]? = some t) : tbl[p]? = f t := by
   have := congrArg (fun l => l[p]?) h
@@ -2176,12 +2159,6 @@ end reload
 section facescontent
 variable {τ α : Type} [DecidableEq τ] (pc : τ → Except Err Corner)
 
-/-- the face lines of a text, in order -/
-def faceToks : List (Line τ α) → List (τ × τ × τ)
-  | [] => []
-  | .f a b c :: ls => (a, b, c) :: faceToks ls
-  | _ :: ls => faceToks ls
-
 def allF (s : RState τ α) : List (τ × τ × τ) := s.done.flatMap (·.ftoks) ++ s.cur.ftoks
 
 theorem step_faces_aux {s s' : RState τ α} {l : Line τ α} (h : step pc s l = .ok s') :
@@ -2634,6 +2611,347 @@ theorem obj_resave_positions {ls : List (Line τ α)} {gs : List (Group τ α)} 
 end resavepos
 
 
+
+/-! ### load → save: every corner of the saved text -/
+
+section resaveattrs
+variable {τ α : Type} [DecidableEq τ] (pc : τ → Except Err Corner)
+
+theorem flat_aligned_aux {γ δ : Type} {key : List γ} (H : Nat → δ) (K : γ → δ)
+    (hHK : ∀ p t, key[p]? = some t → H p = K t) : ∀ (tris : List (Nat × Nat × Nat)) (ftoks : List (γ × γ × γ)),
+    tris.map (fun t => (key[t.1]?, key[t.2.1]?, key[t.2.2]?)) = ftoks.map (fun f => (some f.1, some f.2.1, some f.2.2)) →
+    (flatTris tris).map H = (flatC ftoks).map K
+  | [], [], _ => rfl
+  | [], _ :: _, h' => by simp at h'
+  | _ :: _, [], h' => by simp at h'
+  | (p1, p2, p3) :: tris, (a, b, c) :: ftoks, h' => by
+    simp only [List.map_cons, List.cons.injEq, Prod.mk.injEq] at h'
+    obtain ⟨⟨h1, h2, h3⟩, hr⟩ := h'
+    have ih := flat_aligned_aux H K hHK tris ftoks hr
+    simp only [flatTris, flatC, List.map_cons, hHK _ _ h1, hHK _ _ h2, hHK _ _ h3, ih]
+
+theorem lt_of_getElem?_aux {β : Type} {l : List β} {i : Nat} {x : β} (h : l[i]? = some x) : i < l.length := by
+  rcases Nat.lt_or_ge i l.length with h' | h'
+  · exact h'
+  · rw [List.getElem?_eq_none h'] at h; cases h
+
+theorem keepIfComplete_some_aux {β : Type} {n : Nat} {l l' : List β} (h : keepIfComplete n l = some l') :
+    l' = l ∧ l ≠ [] ∧ l.length = n := by
+  unfold keepIfComplete at h
+  split at h
+  · rename_i hc; cases h; exact ⟨rfl, hc.1, hc.2⟩
+  · cases h
+
+/-- an attribute table of a group and the matching slot function -/
+theorem table_lookup_aux {β : Type} (pool : List β) (sl : τ → Option Nat) (g : Group τ α) (tbl : List β)
+    (htbl : tbl.map some = (g.toks.filterMap sl).map (fun i => pool[i]?))
+    (hlen : tbl.length = g.toks.length) {p : Nat} {t : τ} (ht : g.toks[p]? = some t) :
+    ∃ i u, sl t = some i ∧ pool[i]? = some u ∧ tbl[p]? = some u := by
+  have hfl : (g.toks.filterMap sl).length = g.toks.length := by
+    have := congrArg List.length htbl; simp at this; omega
+  have hall := filterMap_length_aux sl g.toks hfl
+  rw [filterMap_bind_aux sl (fun i => pool[i]?) g.toks hall] at htbl
+  have hlk := lookup_aux htbl ht
+  have hp : p < tbl.length := by
+    rw [hlen]
+    rcases Nat.lt_or_ge p g.toks.length with h | h
+    · exact h
+    · rw [List.getElem?_eq_none h] at ht; cases ht
+  have hs := hall t (List.mem_of_getElem? ht)
+  cases hst : sl t with
+  | none => rw [hst] at hs; cases hs
+  | some i =>
+    rw [hst, List.getElem?_eq_getElem hp] at hlk
+    exact ⟨i, tbl[p], rfl, by simpa using hlk.symm, List.getElem?_eq_getElem hp⟩
+
+/-- one corner of the saved text: it resolves, to exactly `savedCorner` of its token -/
+theorem saved_corner_aux (PV PN : List (V3 α)) (PT : List (V2 α)) (pv pn : List (V3 α)) (pt : List (V2 α))
+    (vo to no : Nat) (g : Group τ α) (hi : GInv pc pv pn pt g) (hp : PoolsFor PV PN PT vo to no (toMesh g).2)
+    {p : Nat} {t : τ} (ht : g.toks[p]? = some t) :
+    resolveCorner PV PN PT (mkCorner (toMesh g).2.uv.isSome (toMesh g).2.nrm.isSome vo to no p) =
+      savedCorner pc pv pn pt g t ∧ (savedCorner pc pv pn pt g t).isSome := by
+  have hvl : g.verts.length = g.toks.length := by simpa using congrArg List.length hi.hv
+  have hplt : p < g.verts.length := by
+    rw [hvl]
+    rcases Nat.lt_or_ge p g.toks.length with h | h
+    · exact h
+    · rw [List.getElem?_eq_none h] at ht; cases ht
+  have hvne : g.verts ≠ [] := by intro e; rw [e] at hplt; simp at hplt
+  have hpos : (toMesh g).2.pos = some g.verts := by simp [toMesh, optOfList, hvne]
+  -- position
+  have hv := lookup_aux hi.hv ht
+  rw [List.getElem?_eq_getElem hplt] at hv
+  have hPV : PV[p + vo]? = some g.verts[p] := by
+    rw [hp.1 g.verts hpos p hplt]; exact List.getElem?_eq_getElem hplt
+  obtain ⟨c, hc, hcv, hcp⟩ : ∃ c, pc t = .ok c ∧ c.v ≠ 0 ∧ pv[c.v - 1]? = some g.verts[p] := by
+    unfold vOf at hv
+    cases hpc : pc t with
+    | error e => rw [hpc] at hv; cases hv
+    | ok c =>
+      rw [hpc] at hv
+      by_cases h0 : c.v = 0
+      · simp [h0] at hv
+      · simp only [h0, ↓reduceIte] at hv; exact ⟨c, rfl, h0, hv.symm⟩
+  have e1 : p + 1 + vo - 1 = p + vo := by omega
+  -- texture coordinates
+  have hT : (keptT g = true → ∃ i u, slot c.vt = some i ∧ pt[i]? = some u ∧ PT[p + to]? = some u ∧ (toMesh g).2.uv.isSome = true) ∧
+      (keptT g = false → (toMesh g).2.uv.isSome = false) := by
+    constructor
+    · intro hk
+      unfold keptT at hk
+      cases hkc : keepIfComplete g.verts.length g.uvs with
+      | none => rw [hkc] at hk; cases hk
+      | some l =>
+        obtain ⟨rfl, _, hl⟩ := keepIfComplete_some_aux hkc
+        obtain ⟨i, u, hs, hpi, htb⟩ := table_lookup_aux pt (tIdx pc) g g.uvs hi.ht (by omega) ht
+        have huv : (toMesh g).2.uv = some g.uvs := by simp [toMesh, hkc]
+        refine ⟨i, u, by simpa [tIdx, hc] using hs, hpi, ?_, by simp [huv]⟩
+        rw [hp.2.1 g.uvs huv p (by omega)]; exact htb
+    · intro hk
+      unfold keptT at hk
+      simp only [toMesh]
+      cases hkc : keepIfComplete g.verts.length g.uvs with
+      | none => rfl
+      | some l => rw [hkc] at hk; cases hk
+  have hN : (keptN g = true → ∃ i u, slot c.vn = some i ∧ pn[i]? = some u ∧ PN[p + no]? = some u ∧ (toMesh g).2.nrm.isSome = true) ∧
+      (keptN g = false → (toMesh g).2.nrm.isSome = false) := by
+    constructor
+    · intro hk
+      unfold keptN at hk
+      cases hkc : keepIfComplete g.verts.length g.normals with
+      | none => rw [hkc] at hk; cases hk
+      | some l =>
+        obtain ⟨rfl, _, hl⟩ := keepIfComplete_some_aux hkc
+        obtain ⟨i, u, hs, hpi, htb⟩ := table_lookup_aux pn (nIdx pc) g g.normals hi.hn (by omega) ht
+        have hnr : (toMesh g).2.nrm = some g.normals := by simp [toMesh, hkc]
+        refine ⟨i, u, by simpa [nIdx, hc] using hs, hpi, ?_, by simp [hnr]⟩
+        rw [hp.2.2 g.normals hnr p (by omega)]; exact htb
+    · intro hk
+      unfold keptN at hk
+      simp only [toMesh]
+      cases hkc : keepIfComplete g.verts.length g.normals with
+      | none => rfl
+      | some l => rw [hkc] at hk; cases hk
+  have sn : slot (none : Option Nat) = none := rfl
+  unfold savedCorner
+  rw [hc]
+  cases hkt : keptT g with
+  | false =>
+    have hu := hT.2 hkt
+    cases hkn : keptN g with
+    | false =>
+      have hn := hN.2 hkn
+      simp [resolveCorner, mkCorner, maskC, hu, hn, e1, hPV, hcv, hcp, sn]
+    | true =>
+      obtain ⟨j, n, hs, hpj, hPN, hn⟩ := hN.1 hkn
+      have e3 : slot (some (p + 1 + no)) = some (p + no) := by simp [slot]
+      simp [resolveCorner, mkCorner, maskC, hu, hn, e1, hPV, hcv, hcp, hs, hpj, hPN, e3, sn]
+  | true =>
+    obtain ⟨i, u, hst, hpi, hPT, hu⟩ := hT.1 hkt
+    have e2 : slot (some (p + 1 + to)) = some (p + to) := by simp [slot]
+    cases hkn : keptN g with
+    | false =>
+      have hn := hN.2 hkn
+      simp [resolveCorner, mkCorner, maskC, hu, hn, e1, hPV, hcv, hcp, hst, hpi, hPT, e2, sn]
+    | true =>
+      obtain ⟨j, n, hs, hpj, hPN, hn⟩ := hN.1 hkn
+      have e3 : slot (some (p + 1 + no)) = some (p + no) := by simp [slot]
+      simp [resolveCorner, mkCorner, maskC, hu, hn, e1, hPV, hcv, hcp, hst, hpi, hPT, e2, hs, hpj, hPN, e3]
+
+theorem saved_attrs_aux (multi : Bool) (PV PN : List (V3 α)) (PT : List (V2 α)) (pv pn : List (V3 α)) (pt : List (V2 α)) :
+    ∀ (gs : List (Group τ α)) (vo to no : Nat),
+    PoolsAll PV PN PT vo to no (gs.map toMesh) → (∀ g ∈ gs, GInv pc pv pn pt g) →
+    (∀ g ∈ gs, g.mats = [] ∨ matSum g.mats = g.tris.length) →
+    (flatC (faceToks (groupLines multi vo to no (gs.map toMesh)))).map (fun c => resolveCorner PV PN PT c) =
+      gs.flatMap (fun g => (flatC g.ftoks).map (savedCorner pc pv pn pt g))
+  | [], _, _, _, _, _, _ => rfl
+  | g :: gs, vo, to, no, hp, hi, hm => by
+    have ih := saved_attrs_aux multi PV PN PT pv pn pt gs (vo + optLen (toMesh g).2.pos)
+      (to + optLen (toMesh g).2.uv) (no + optLen (toMesh g).2.nrm) hp.2 (fun g' hg' => hi g' (by simp [hg']))
+      (fun g' hg' => hm g' (by simp [hg']))
+    have hg := hi g (by simp)
+    have hbody : faceToks (bodyLines (α := α) vo to no (toMesh g).2) =
+        cornerTriples (mkCorner (toMesh g).2.uv.isSome (toMesh g).2.nrm.isSome vo to no) g.tris := by
+      unfold bodyLines
+      have ht : triplesOf (toMesh g).2.idx = g.tris := by simp [toMesh, triplesOf_flatTris_aux]
+      by_cases hmm : (toMesh g).2.mats = []
+      · simp only [hmm, ↓reduceIte, faceToks_faceLines_aux, ht]
+      · simp only [hmm, ↓reduceIte, ht]
+        apply faceToks_rangeLines_aux
+        rcases hm g (by simp) with h0 | h0
+        · exact absurd (by simp [toMesh, h0]) hmm
+        · simpa [toMesh, matSum, List.map_map, Function.comp_def] using h0
+    have hgl : faceToks (gLine (α := α) multi (toMesh g).1) = [] := by unfold gLine; split <;> rfl
+    have e : toMesh g = ((toMesh g).1, (toMesh g).2) := rfl
+    rw [List.map_cons, e]
+    simp only [groupLines, faceToks_append_aux, hgl, List.nil_append, hbody, flatC_append_aux, List.map_append,
+      List.flatMap_cons]
+    rw [ih]
+    congr 1
+    rw [flatC_cornerTriples_aux, List.map_map]
+    exact flat_aligned_aux _ _ (fun p t ht => (saved_corner_aux pc PV PN PT pv pn pt vo to no g hg hp.1 ht).1)
+      g.tris g.ftoks hg.hf
+
+theorem flatC_flatMap_aux {γ β : Type} (f : β → List (γ × γ × γ)) : ∀ l : List β, flatC (l.flatMap f) = l.flatMap (fun x => flatC (f x))
+  | [] => rfl
+  | a :: l => by simp [List.flatMap_cons, flatC_append_aux, flatC_flatMap_aux f l]
+
+theorem ftoks_in_toks_aux {pv pn : List (V3 α)} {pt : List (V2 α)} {g : Group τ α} (hi : GInv pc pv pn pt g)
+    {t : τ} (ht : t ∈ flatC g.ftoks) : ∃ p : Nat, g.toks[p]? = some t := by
+  have h := flat_aligned_aux (key := g.toks) (fun (p : Nat) => g.toks[p]?) (fun t => some t) (fun p t h => h) g.tris g.ftoks hi.hf
+  have : some t ∈ (flatC g.ftoks).map (fun t => some t) := List.mem_map_of_mem ht
+  rw [← h] at this
+  obtain ⟨p, _, hp⟩ := List.mem_map.1 this
+  exact ⟨p, hp⟩
+
+/-- **Load → save: every corner of the saved text.**  For every accepted input, saving what was read
+    succeeds and the saved text has — face by face, corner by corner, in order — for each corner token of
+    the input: the same position, the same texture coordinate if EVERY corner of its group has one (none
+    otherwise), the same normal if every corner of its group has one (none otherwise); every corner of the
+    saved text resolves against its own `v / vt / vn` lines.  (Final-pool form of the oracle predicate
+    `Resaves`: corners are resolved against the whole pool of their text, which on accepted inputs is what
+    the pool at the time of the face gives.) -/
+theorem obj_resave_corners {ls : List (Line τ α)} {gs : List (Group τ α)} {libs : List String}
+    (h : readObj pc ls = .ok (gs, libs)) (matFile : String) :
+    ∃ out, writeObj matFile (gs.map toMesh) = .ok out ∧
+      cornerAttrs pcId out =
+        gs.flatMap (fun g => (flatC g.ftoks).map (savedCorner pc (poolV ls) (poolN ls) (poolT ls) g)) ∧
+      ∀ o ∈ cornerAttrs pcId out, o.isSome := by
+  have hinv := readObj_corners pc h
+  obtain ⟨hok, _⟩ := readObj_ranges_sum pc h
+  have hw := writeGroups_eq2_aux (decide ((gs.map toMesh).length > 1)) (gs.map toMesh) 0 0 0 (by
+    intro p hp
+    obtain ⟨g, hg, rfl⟩ := List.mem_map.1 hp
+    refine ⟨by simp [toMesh, flatTris_length_aux], ?_⟩
+    rcases (hok g hg).2 with h0 | h0
+    · left; simp [toMesh, h0]
+    · right
+      have : 3 * g.tris.length / 3 = g.tris.length := by omega
+      simp only [toMesh, flatTris_length_aux, this, ← h0]
+      simp [matSum, List.map_map, Function.comp_def])
+  let out := headerLines matFile ++ dataLines (gs.map toMesh) ++
+    groupLines (decide ((gs.map toMesh).length > 1)) 0 0 0 (gs.map toMesh)
+  have hmain : cornerAttrs pcId out =
+      gs.flatMap (fun g => (flatC g.ftoks).map (savedCorner pc (poolV ls) (poolN ls) (poolT ls) g)) := by
+    obtain ⟨a1, a2, a3⟩ := pool_of_append_aux (headerLines matFile ++ dataLines (gs.map toMesh))
+      (groupLines (decide ((gs.map toMesh).length > 1)) 0 0 0 (gs.map toMesh))
+    obtain ⟨b1, b2, b3⟩ := pool_of_append_aux (headerLines (α := α) matFile) (dataLines (gs.map toMesh))
+    obtain ⟨g1, g2, g3⟩ := noPool_groupLines_aux (decide ((gs.map toMesh).length > 1)) (gs.map toMesh) 0 0 0
+    obtain ⟨h1, h2, h3⟩ := pool_header_aux (α := α) matFile
+    obtain ⟨d1, d2, d3⟩ := pool_data_aux (gs.map toMesh)
+    have hpv : poolV out = (gs.map toMesh).flatMap (fun p => optList p.2.pos) := by
+      simp only [out]; rw [a1, b1, g1, h1, d1]; simp
+    have hpn : poolN out = (gs.map toMesh).flatMap (fun p => optList p.2.nrm) := by
+      simp only [out]; rw [a2, b2, g2, h2, d2]; simp
+    have hpt : poolT out = (gs.map toMesh).flatMap (fun p => optList p.2.uv) := by
+      simp only [out]; rw [a3, b3, g3, h3, d3]; simp
+    have hft : faceToks out = faceToks (groupLines (decide ((gs.map toMesh).length > 1)) 0 0 0 (gs.map toMesh)) := by
+      have hh : faceToks (headerLines (α := α) matFile) = [] := by unfold headerLines; split <;> rfl
+      simp [out, faceToks_append_aux, hh, faceToks_nopool_aux]
+    have hpools := poolsAll_aux (gs.map toMesh) [] [] []
+    simp only [List.nil_append, List.length_nil] at hpools
+    unfold cornerAttrs
+    rw [hpv, hpn, hpt, hft]
+    exact saved_attrs_aux pc _ _ _ _ _ _ _ gs 0 0 0 hpools hinv (fun g hg => (hok g hg).2)
+  refine ⟨out, by simp only [writeObj, hw, out], hmain, ?_⟩
+  rw [hmain]
+  intro o ho
+  obtain ⟨g, hg, ho'⟩ := List.mem_flatMap.1 ho
+  obtain ⟨t, ht, rfl⟩ := List.mem_map.1 ho'
+  obtain ⟨p, hp⟩ := ftoks_in_toks_aux pc (hinv g hg) ht
+  -- any pools for which the group's own arrays sit at offset 0 will do to invoke the corner lemma
+  have hpf : PoolsFor (optList (toMesh g).2.pos) (optList (toMesh g).2.nrm) (optList (toMesh g).2.uv) 0 0 0 (toMesh g).2 := by
+    refine ⟨?_, ?_, ?_⟩
+    · intro ps hps i _; simp [hps, optList]
+    · intro us hus i _; simp [hus, optList]
+    · intro ns hns i _; simp [hns, optList]
+  exact (saved_corner_aux pc _ _ _ _ _ _ 0 0 0 g (hinv g hg) hpf hp).2
+
+/-- every group uses one corner shape: all its corners carry a vt (resp. vn) slot, or none does -/
+def UniformGroups (gs : List (Group τ α)) : Prop :=
+  ∀ g ∈ gs, ((∀ t ∈ g.toks, (tIdx pc t).isSome) ∨ (∀ t ∈ g.toks, tIdx pc t = none)) ∧
+            ((∀ t ∈ g.toks, (nIdx pc t).isSome) ∨ (∀ t ∈ g.toks, nIdx pc t = none))
+
+theorem resolve_mask_aux (pv pn : List (V3 α)) (pt : List (V2 α)) (c : Corner) (kt kn : Bool)
+    (ht : kt = true ∨ slot c.vt = none) (hn : kn = true ∨ slot c.vn = none) :
+    resolveCorner pv pn pt (maskC c kt kn) = resolveCorner pv pn pt c := by
+  have sn : slot (none : Option Nat) = none := rfl
+  have e1 : slot (if kt then c.vt else none) = slot c.vt := by
+    rcases ht with h | h
+    · simp [h]
+    · cases kt <;> simp [h, sn]
+  have e2 : slot (if kn then c.vn else none) = slot c.vn := by
+    rcases hn with h | h
+    · simp [h]
+    · cases kn <;> simp [h, sn]
+  simp only [resolveCorner, maskC, e1, e2]
+
+/-- **`Resaves` for texts whose groups each use one corner shape** (all four shapes allowed, a different one
+    per group): the saved text has exactly the corners of the input — position, texture coordinate and normal
+    of every face corner, in order — and every one of them resolves. -/
+theorem obj_resave_corners_uniform {ls : List (Line τ α)} {gs : List (Group τ α)} {libs : List String}
+    (h : readObj pc ls = .ok (gs, libs)) (hu : UniformGroups pc gs) (matFile : String) :
+    ∃ out, writeObj matFile (gs.map toMesh) = .ok out ∧ cornerAttrs pcId out = cornerAttrs pc ls ∧
+      ∀ o ∈ cornerAttrs pcId out, o.isSome := by
+  obtain ⟨out, hw, hc, hs⟩ := obj_resave_corners pc h matFile
+  refine ⟨out, hw, ?_, hs⟩
+  rw [hc]
+  unfold cornerAttrs
+  rw [← readObj_faces_content pc h, flatC_flatMap_aux, List.map_flatMap]
+  have hinv := readObj_corners pc h
+  have key : ∀ (gs' : List (Group τ α)), (∀ g ∈ gs', g ∈ gs) →
+      gs'.flatMap (fun g => (flatC g.ftoks).map (savedCorner pc (poolV ls) (poolN ls) (poolT ls) g)) =
+      gs'.flatMap (fun g => (flatC g.ftoks).map (fun t => match pc t with
+        | .ok c => resolveCorner (poolV ls) (poolN ls) (poolT ls) c
+        | .error _ => none)) := by
+    intro gs'
+    induction gs' with
+    | nil => intro _; rfl
+    | cons g r ih =>
+      intro hsub
+      rw [List.flatMap_cons, List.flatMap_cons, ih (fun g' hg' => hsub g' (by simp [hg']))]
+      congr 1
+      apply List.map_congr_left
+      intro t ht
+      have hg := hsub g (by simp)
+      have hi := hinv g hg
+      obtain ⟨p, hp⟩ := ftoks_in_toks_aux pc hi ht
+      have hmem : t ∈ g.toks := List.mem_of_getElem? hp
+      have hvl : g.verts.length = g.toks.length := by simpa using congrArg List.length hi.hv
+      have hne : g.toks ≠ [] := List.ne_nil_of_mem hmem
+      unfold savedCorner
+      cases hpc : pc t with
+      | error e => rfl
+      | ok c =>
+        simp only
+        apply resolve_mask_aux
+        · rcases (hu g hg).1 with hall | hnone
+          · left
+            -- complete and non-empty
+            have hfl := filterMap_bind_aux (tIdx pc) (fun i => (poolT ls)[i]?) g.toks hall
+            have hl : g.uvs.length = g.toks.length := by
+              have := congrArg List.length (hi.ht.trans hfl); simpa using this
+            have hune : g.uvs ≠ [] := by
+              intro e; rw [e] at hl; exact hne (List.eq_nil_of_length_eq_zero hl.symm)
+            simp [keptT, keepIfComplete, hune, hl, hvl]
+          · right
+            have := hnone t hmem
+            simpa [tIdx, hpc] using this
+        · rcases (hu g hg).2 with hall | hnone
+          · left
+            have hfl := filterMap_bind_aux (nIdx pc) (fun i => (poolN ls)[i]?) g.toks hall
+            have hl : g.normals.length = g.toks.length := by
+              have := congrArg List.length (hi.hn.trans hfl); simpa using this
+            have hune : g.normals ≠ [] := by
+              intro e; rw [e] at hl; exact hne (List.eq_nil_of_length_eq_zero hl.symm)
+            simp [keptN, keepIfComplete, hune, hl, hvl]
+          · right
+            have := hnone t hmem
+            simpa [nIdx, hpc] using this
+  exact key gs (fun g hg => hg)
+
+
+end resaveattrs
 
 end ObjL
 end PolyVerif
